@@ -15,6 +15,9 @@
 import YaraModel.Lemmas.ArenaExample
 import YaraModel.Lemmas.ArenaRoundTrip
 import YaraModel.Lemmas.ArenaLoadRules
+import YaraModel.Lemmas.ArenaPrefix
+import YaraModel.Lemmas.RulesFile
+import YaraModel.Gen.RulesFile
 namespace YaraModel.Arena
 open YaraModel.Gen.ArenaLayout
 
@@ -399,5 +402,76 @@ theorem rules_after_size_corruption (cfg : LoaderCfg) (alloc : Nat → Nat) (hnz
     loadRules cfg alloc (patch (save a) (sizeFieldAt i) (leBytes 4 z)) =
       if i = summarySection ∧ z = 0 then .error .corruptFile else .ok A' :=
   loadRules_after_size_patch cfg alloc hnz a hn hsum hsz hsz2 i hi z hz A' hA
+
+/-! ## every cut point classified -/
+
+/-- **Cut inside a relocation entry**: every prefix that ends after the bodies but not on an entry boundary is refused
+    (ERROR_CORRUPT_FILE) by the fully checked loader — the entries before the cut may each pass, the trailing partial
+    entry does not. -/
+theorem prefix_in_entry (cfg : LoaderCfg) (hh : Hardened cfg) (alloc : Nat → Nat) (a : Arena) (hn : a.bufs.length ≤ maxBuffers)
+    (hs2 : ∀ b ∈ a.bufs, b.data.length ≤ 2 ^ 31) (m : Nat) (hm : m % 8 ≠ 0) (hlt : m < 8 * a.relocs.length) :
+    load cfg alloc ((save a).take (bodiesEnd a + m)) = .error .corruptFile :=
+  load_cut_in_entry cfg hh alloc a hn hs2 m hm hlt
+
+/-- **The truncation quantifier, complete.** For every well-formed arena and EVERY proper prefix length k of its image:
+    the fully checked loader accepts the prefix if and only if k lies at or after the end of the buffer bodies on a
+    relocation-entry boundary.  (Everything else is rejected: prefix_header / prefix_table / prefix_bodies /
+    prefix_in_entry; the accepted ones are exactly known finding F9: reloc_cut_accepted.) -/
+theorem prefix_accepted_iff (cfg : LoaderCfg) (hh : Hardened cfg) (alloc : Nat → Nat) {a : Arena} (h : WF a)
+    (hs2 : ∀ b ∈ a.bufs, b.data.length ≤ 2 ^ 31) (hA : RangesOk (loadedBufs alloc 0 (bodies (toRefs a)))) (hnz : ∀ i, alloc i ≠ 0)
+    (k : Nat) (hk : k < (save a).length) :
+    (∃ A, load cfg alloc ((save a).take k) = .ok A) ↔ (bodiesEnd a ≤ k ∧ (k - bodiesEnd a) % 8 = 0) := by
+  have hse : bodiesStart a ≤ bodiesEnd a := by unfold bodiesEnd; omega
+  have hhs : headerSize ≤ bodiesStart a := by unfold bodiesStart; omega
+  rw [save_length] at hk
+  by_cases h1 : k < bodiesEnd a
+  · have herr : ∃ e, load cfg alloc ((save a).take k) = .error e := by
+      by_cases h2 : k < headerSize
+      · exact ⟨_, prefix_header cfg a alloc k h2⟩
+      · by_cases h3 : k < bodiesStart a
+        · exact ⟨_, prefix_table cfg a alloc h.count k (by omega) h3⟩
+        · exact ⟨_, prefix_bodies cfg a alloc h.count hs2 k (by omega) h1⟩
+    obtain ⟨e, he⟩ := herr
+    constructor
+    · rintro ⟨A, hA'⟩; rw [he] at hA'; cases hA'
+    · rintro ⟨h', _⟩; omega
+  · obtain ⟨m, rfl⟩ : ∃ m, k = bodiesEnd a + m := ⟨k - bodiesEnd a, by omega⟩
+    have hm : m < 8 * a.relocs.length := by omega
+    rw [Nat.add_sub_cancel_left]
+    by_cases h8 : m % 8 = 0
+    · obtain ⟨A, hA', _⟩ := reloc_cut_accepted cfg h hs2 alloc hA hnz (m / 8)
+      have : 8 * (m / 8) = m := by omega
+      rw [this] at hA'
+      exact ⟨fun _ => ⟨by omega, h8⟩, fun _ => ⟨A, hA'⟩⟩
+    · rw [prefix_in_entry cfg hh alloc a h.count hs2 m h8 hm]
+      constructor
+      · rintro ⟨A, hA'⟩; cases hA'
+      · rintro ⟨_, h'⟩; exact absurd h' h8
+
+/-- on the example arena (image of 80 bytes, bodies end at 64, two entries): accepted exactly at 64 and 72 -/
+example (k : Nat) (hk : k < 80) :
+    (∃ A, load loaderCfg exAlloc ((save exArena).take k) = .ok A) ↔ (k = 64 ∨ k = 72) := by
+  have h80 : (save exArena).length = 80 := by decide
+  have hbe : bodiesEnd exArena = 64 := by decide
+  rw [prefix_accepted_iff loaderCfg hardened_loaderCfg exAlloc exArena_wf (by decide) ⟨by decide, by decide, by decide⟩
+    (by intro i; unfold exAlloc; omega) k (by rw [h80]; exact hk), hbe]
+  omega
+
+/-! ## the file-name API gives its handle back -/
+
+/-- **A rejected file is an error and nothing else — also for the FILE handle.**  `Gen.RulesFile.rulesLoad` /
+    `rulesSave` are the bodies of yr_rules_load / yr_rules_save of the source tree, statement by statement (fopen,
+    the NULL test, the call of the stream function, fclose, return; regenerated on every run).  Whatever fopen, the
+    stream loader / saver answer (every outcome list): the function holds no FILE handle when it returns — the
+    damaged file that yr_rules_load_stream refuses is closed like the intact one.  (An early return between fopen and
+    fclose, e.g. FAIL_ON_ERROR around the stream call, makes `balanced` false and this theorem unprovable.) -/
+theorem file_api_gives_back_handle (outcomes : List Bool) :
+    RulesFile.exec Gen.RulesFile.rulesLoad false outcomes = 0 ∧ RulesFile.exec Gen.RulesFile.rulesSave false outcomes = 0 ∧
+      Gen.RulesFile.unparsed = false :=
+  ⟨RulesFile.balanced_sound _ _ _ (by decide), RulesFile.balanced_sound _ _ _ (by decide), rfl⟩
+
+/-- the statement is not vacuous: the same body with FAIL_ON_ERROR around the stream call keeps the handle when the
+    stream loader fails (fopen succeeds, the call fails) -/
+example : RulesFile.exec [.fopen, .retIfNull, .failOnError, .fclose, .ret] false [true, false] = 1 := by decide
 
 end YaraModel.Arena
